@@ -70,6 +70,9 @@ Warns(l) == l.k \in {"badshape", "badword"}
 ReaderState == [frame : Supported \cup {NoFrame}]
 St(frame, gmeta, cmeta, out, warn) == [frame |-> frame, gmeta |-> gmeta, cmeta |-> cmeta, out |-> out, warn |-> warn]
 St0 == St(NoFrame, NoProps, NoProps, <<>>, 0)
+(* properties the library does not carry (arrow heads of lines, vectors, rulers, compasses) are dropped - they alone, wherever they stand in the list *)
+UnsupportedKeys == {"line", "vector", "ruler", "compass"}
+Supp(props) == [k \in DOMAIN props \ UnsupportedKeys |-> props[k]]
 StepLine(s, l) ==
   CASE l.k = "frame" -> IF l.name \in Supported THEN [s EXCEPT !.frame = l.name]
                         ELSE [s EXCEPT !.frame = NoFrame, !.warn = s.warn + 1]          \* unsupported frame: warned, frame cleared
@@ -79,7 +82,7 @@ StepLine(s, l) ==
                             ELSE [s EXCEPT !.cmeta = l.props]
     [] l.k = "region" ->
          IF s.frame = NoFrame THEN [s EXCEPT !.warn = s.warn + 1]                     \* no region without a frame
-         ELSE LET props == Override(Override(Override(s.gmeta, s.cmeta), SignInclude(l)), l.props)
+         ELSE LET props == Supp(Override(Override(Override(s.gmeta, s.cmeta), SignInclude(l)), l.props))
               IN [s EXCEPT !.out = s.out \o Regions(l, s.frame, props),
                            !.cmeta = IF l.cont THEN s.cmeta ELSE NoProps]              \* "||" keeps composite properties alive
 RECURSIVE ReadFrom(_, _)
